@@ -74,7 +74,9 @@ func upfGoroutines() []gInfo {
 			}
 		}
 		var own []string
-		isHarness := func(f string) bool { return strings.Contains(f, "go-upf/internal/verif/") || strings.HasPrefix(f, "main.") }
+		isHarness := func(f string) bool {
+			return strings.Contains(f, "go-upf/internal/verif/") || strings.HasPrefix(f, "main.")
+		}
 		for _, f := range fns {
 			if !isHarness(f) && strings.Contains(f, "github.com/free5gc/go-upf/") {
 				own = append(own, f)
@@ -389,7 +391,7 @@ func c17Run(res *vh.Result, ci int, rng *vh.Rng) {
 	}
 	// ---- producers ----
 	serial := uint64(ci+1) * 10000000 // disjoint per case: a straggler of an earlier case can never alias
-	var accounted sync.Map // serial -> SMF index (stable sessions only)
+	var accounted sync.Map            // serial -> SMF index (stable sessions only)
 	var injected int64
 	for p := 0; p < c.Producers; p++ {
 		wg.Add(1)
